@@ -35,7 +35,9 @@ def kf_c20_1(_payload):
 
 
 def search_escape(_payload):
-    alphabet = ['a', ' ', '&', '<', '>', '"', "'", ';', '#', 'amp', 'lt;', '&amp;', '&lt;', 'é', '&#38;', '&nbsp;']
+    alphabet = ['a', ' ', '&', '<', '>', '"', "'", ';', '#', 'amp', 'lt;', '&amp;', '&lt;', 'é', '&#38;', '&nbsp;',
+                # XML-legal characters that are not "printable" / are blank in the Unicode sense
+                '\u00a0', '\u2003', '\u00ad', '\u200b', '\u2028', '\u0085', '\U0001f600']
     for n in (1, 2, 3):
         for combo in itertools.product(alphabet, repeat=n):
             text = ''.join(combo)
